@@ -121,6 +121,49 @@ def rejects(lineno: Optional[int], offset: Optional[int], end_lineno: Optional[i
             and r["source"]["success"] is False and isinstance(tree, real_ast.Module) and tree.body == [])
 
 
+def refuses(pos: int, k0: bool, k1: bool, n0: bool, n1: bool, s0: bool, s1: bool, muted: bool) -> bool:
+    """
+    The parser refuses the text WITHOUT a SyntaxError - UnicodeEncodeError at a symbolic position (what CPython raises for a
+    lone surrogate), RecursionError (expression nested too deeply for the AST builder), plain ValueError (the NUL-byte
+    refusal of older CPythons): verify() still returns False without raising, attaches exactly one triggered
+    syntax-category feedback located on a line of the file (CPython names no line), and stores an empty tree.
+
+    pre: 0 <= pos <= 6
+    post: _
+    """
+    if tick():
+        return True
+    kind, nfile, sec_off = bits(k0, k1), bits(n0, n1), bits(s0, s1)
+    if kind >= 3 or nfile >= 3 or sec_off >= 3:
+        return True
+    r, code = _setup(nfile, sec_off)
+    if kind == 0:
+        if pos >= len(code):
+            return True
+        exc = UnicodeEncodeError("utf-8", code, pos, pos + 1, "surrogates not allowed")
+    elif kind == 1:
+        exc = RecursionError("maximum recursion depth exceeded during ast construction")
+    else:
+        exc = ValueError("source code string cannot contain null bytes")
+    _state["raise"] = exc
+    before = len(r.feedback) + len(r.ignored_feedback)
+    try:
+        res = verify(report=r, muted=muted)
+        consumed = _state["raise"] is None
+    finally:
+        _state["raise"] = None
+    if not consumed:
+        flag("stub_dead")
+        return True
+    new = r.feedback + r.ignored_feedback
+    syn = [f for f in new if f.category == "syntax"]
+    if res is not False or len(new) != before + 1 or len(syn) != 1:
+        return False
+    fb, tree, nlines = syn[0], r["source"]["ast"], nfile + 1
+    return (bool(fb) and bool(fb.muted) == muted and 1 + sec_off <= fb.location.line <= nlines + sec_off
+            and r["source"]["success"] is False and isinstance(tree, real_ast.Module) and tree.body == [])
+
+
 def accepts(n0: bool, n1: bool, s0: bool, s1: bool, blank: bool) -> bool:
     """
     The parser accepts: no syntax feedback (blank text: exactly the blank_source feedback), the stored tree is the
@@ -189,12 +232,15 @@ REAL_SOURCES = [
     "   \n\t\n", "x = 1;;\n", "lambda: (yield)\n", "f(**a, *b)\n", "x = 0777\n", "print 'hi'\n", "x = 1 if else 2\n",
     "for i in range(3):\n    pass\nelse:\n    pass\n", "a = 1\n\n\n\n\nb = )\n", "match x:\n    case 1:\n        pass\n",
     "def f():\n\tif 1:\n\t\tpass\n\telse:\n\t    pass\n", "x = '\\N{DOES NOT EXIST}'\n",
+    # texts the parser refuses without a SyntaxError: lone surrogates (UnicodeEncodeError), very deep expressions (RecursionError)
+    "a = '\ud800'\n", "x = 1\n# \udc80\n", "x = 1\ny = " + "+".join(["1"] * 3000) + "\n", "x = " + "-" * 3000 + "1\n",
+    "x = y" + ".a" * 3000 + "\n", "x = " + "(" * 300 + ")" * 300 + "\n",
 ]
 
 
-def real_sources(k0: bool, k1: bool, k2: bool, k3: bool, k4: bool, offset2: bool) -> bool:
+def real_sources(k0: bool, k1: bool, k2: bool, k3: bool, k4: bool, k5: bool, offset2: bool) -> bool:
     """
-    32 concrete sources (valid programs; errors of every harvested shape; NUL, CR, CRLF, form feed, non-ASCII identifiers,
+    38 concrete sources (valid programs; texts refused without a SyntaxError - lone surrogates, very deep expressions; errors of every harvested shape; NUL, CR, CRLF, form feed, non-ASCII identifiers,
     type comments, tabs vs spaces, unterminated strings, bad escapes) through the real verify(): never raises; a
     syntax-category error feedback iff ast.parse rejects the text; its line is CPython's line (+ the section offset); on
     acceptance the stored tree equals CPython's and no syntax feedback exists (blank text: blank_source).
@@ -204,7 +250,7 @@ def real_sources(k0: bool, k1: bool, k2: bool, k3: bool, k4: bool, offset2: bool
     """
     if tick():
         return True
-    k = bits(k0, k1, k2, k3, k4)
+    k = bits(k0, k1, k2, k3, k4, k5)
     if k >= len(REAL_SOURCES):
         return True
     from crosshair.tracers import NoTracing
@@ -223,6 +269,8 @@ def _real_source(code, offset):
                 want_tree, want_err = real_ast.parse(code, "answer.py"), None
         except SyntaxError as e:
             want_tree, want_err = None, e
+        except (ValueError, RecursionError) as e:         # refused without a SyntaxError (and without a line)
+            want_tree, want_err = None, SyntaxError(str(e))
         r = Report()
         r.contextualize(Submission({"answer.py": code}, "answer.py", code))
         if offset:
